@@ -42,8 +42,9 @@ Proof.
     + left. inv_some. reflexivity.
     + left. destruct (aq_ph c c0); try discriminate. destruct (nth_error (aq_q c c0) k).
       * destruct (ierr c c0); inv_some; [reflexivity|].
+        match goal with |- context [if ?b then _ else _] => destruct b end; cbn [spc set_aq_ph];
         match goal with |- spc (deliver ?a ?p ?b ?k ?e ?cc) _ = _ =>
-          destruct (core_eq_deliver a p b k e cc) as (_ & _ & _ & E & _); rewrite E end. reflexivity.
+          destruct (core_eq_deliver a p b k e cc) as (_ & _ & _ & E & _); rewrite E end; reflexivity.
       * inv_some. reflexivity.
     + left. inv_some. reflexivity.
     + inv_some. cbn -[set_nth has_ongoing]. unfold all_free.
@@ -80,6 +81,7 @@ Proof.
     + destruct (drain c); [destruct (has_ongoing (ongoing c))|..]; inv_some; reflexivity.
     + destruct (drain c); inv_some; reflexivity.
     + inv_some; reflexivity.
+  - left. unfold step_drain_ack in H. destruct (aq_ph c a); inv_some; reflexivity.
 Qed.
 
 Lemma deliver_ppc : forall a p b k emb c y,
@@ -108,10 +110,11 @@ Proof.
         destruct (ierr c c0); inv_some.
         -- cbn. unfold upd. destruct (Nat.eqb_spec y c1) as [->|N]; auto.
            right. right. left. split; [congruence|reflexivity].
-        -- match goal with |- context [deliver ?a ?p ?b ?k ?e ?cc] =>
+        -- match goal with |- context [if ?b then _ else _] => destruct b end; cbn [ppc set_aq_ph];
+           match goal with |- context [deliver ?a ?p ?b ?k ?e ?cc] =>
              destruct (deliver_ppc a p b k e cc y) as [E|(-> & E)] end.
-           ++ left. rewrite E. reflexivity.
-           ++ right. right. left. split; [congruence|exact E].
+           all: try (left; rewrite E; reflexivity).
+           all: right; right; left; (split; [congruence|exact E]).
       * left. inv_some. reflexivity.
     + left. inv_some. reflexivity.
     + left. inv_some. cbn -[set_nth has_ongoing]. unfold all_free.
@@ -149,6 +152,7 @@ Proof.
       right; right; left; (split; [congruence|reflexivity]).
   - left. rewrite (f_ppc _ _ _ (frame_cancel P _ _ _ H)). reflexivity.
   - left. rewrite (f_ppc _ _ _ (frame_shutdown P _ _ H)). reflexivity.
+  - left. unfold step_drain_ack in H. destruct (aq_ph c a); inv_some; reflexivity.
 Qed.
 
 (* ------------------------------------------------------------------ the program-order invariant *)
